@@ -25,7 +25,8 @@ EXTENDS AuditLogCore
 
 CONSTANTS Threads,         \* client threads
           CallsPerThread,  \* MC bound
-          MaxRestarts      \* MC bound
+          MaxRestarts,     \* MC bound
+          MCErrors         \* MC: "both" = every inner call may succeed or fail; "alt" = outcomes alternate
 
 VARIABLES mode,        \* "closed" | "genesis" | "ready" | "grounding"
           w,           \* writer state [last, buf]; survives Close (it is what the file holds)
@@ -172,7 +173,8 @@ MCLogStart(t) ==
   LogStart(t, e) /\ Written(e) /\ UNCHANGED <<returned, restarts, ninv>>
 
 MCInner(t) ==
-  \E err \in {"", "boom"} : Inner(t, err, "") /\ NothingWritten /\ UNCHANGED <<returned, restarts, ninv>>
+  \E err \in (IF MCErrors = "both" THEN {"", "boom"} ELSE {IF (ninv[t] + t) % 2 = 0 THEN "" ELSE "boom"}) :
+    Inner(t, err, "") /\ NothingWritten /\ UNCHANGED <<returned, restarts, ninv>>
 
 MCLogComplete(t) ==
   LET e == MkLog(w, Len(log), ExpectedDetails(cur[t], "COMPLETE", 1)) IN
